@@ -191,7 +191,7 @@ pub(crate) fn args(s: &str) -> Vec<usize> {
     inner.split(',').map(|x| x.parse().unwrap()).collect()
 }
 
-#[derive(Clone, Copy)]
+#[derive(Clone, Copy, PartialEq)]
 enum Dec {
     Keep,
     Set(u32),
@@ -548,7 +548,32 @@ fn run_txn<'a>(ob: &mut ObservableVector<u32>, w: &mut World, ops: &mut std::sli
             let decs = parse_decisions(arg);
             let (vis_spec, sh, pubs) = spec_each(&w.tshadow, &decs);
             let mut visited = vec![];
+            // for_each() is the entries() loop without early exit: used instead of the explicit
+            // cursor on every other traversal that has no Stop decision
+            let via_for_each = !decs.contains(&Dec::Stop) && w.out.len() % 2 == 1;
             let r = catch(|| {
+                if via_for_each {
+                    let mut i = 0;
+                    txn.for_each(|mut e| {
+                        visited.push((eyeball_im::ObservableVectorTransactionEntry::index(&e), *e));
+                        let d = decs.get(i).copied().unwrap_or(Dec::Keep);
+                        i += 1;
+                        match d {
+                            Dec::Keep | Dec::Stop => {}
+                            Dec::Set(x) => {
+                                eyeball_im::ObservableVectorTransactionEntry::set(&mut e, x);
+                            }
+                            Dec::Remove => {
+                                eyeball_im::ObservableVectorTransactionEntry::remove(e);
+                            }
+                            Dec::SetRemove(x) => {
+                                eyeball_im::ObservableVectorTransactionEntry::set(&mut e, x);
+                                eyeball_im::ObservableVectorTransactionEntry::remove(e);
+                            }
+                        }
+                    });
+                    return;
+                }
                 let mut entries = txn.entries();
                 let mut i = 0;
                 while let Some(mut e) = entries.next() {
@@ -696,7 +721,32 @@ pub fn run_line(line: &str, out: &mut String) {
             let decs = parse_decisions(arg);
             let (vis_spec, sh, pubs) = spec_each(&w.shadow, &decs);
             let mut visited = vec![];
+            // for_each() is the entries() loop without early exit: used instead of the explicit
+            // cursor on every other traversal that has no Stop decision
+            let via_for_each = !decs.contains(&Dec::Stop) && w.out.len() % 2 == 1;
             let r = catch(|| {
+                if via_for_each {
+                    let mut i = 0;
+                    o.for_each(|mut e| {
+                        visited.push((eyeball_im::ObservableVectorEntry::index(&e), *e));
+                        let d = decs.get(i).copied().unwrap_or(Dec::Keep);
+                        i += 1;
+                        match d {
+                            Dec::Keep | Dec::Stop => {}
+                            Dec::Set(x) => {
+                                eyeball_im::ObservableVectorEntry::set(&mut e, x);
+                            }
+                            Dec::Remove => {
+                                eyeball_im::ObservableVectorEntry::remove(e);
+                            }
+                            Dec::SetRemove(x) => {
+                                eyeball_im::ObservableVectorEntry::set(&mut e, x);
+                                eyeball_im::ObservableVectorEntry::remove(e);
+                            }
+                        }
+                    });
+                    return;
+                }
                 let mut entries = o.entries();
                 let mut i = 0;
                 while let Some(mut e) = entries.next() {
